@@ -20,6 +20,36 @@ FIXED = ["# h *e* ![i](s)\n\n- a [l](u 't')\n- b\n\n> q `c` <http://x.y> &amp;\n
          "[r] ![r] [t][r]\n", "a\n---\n![b][R]\n", "* * *\n*a*\n"]
 
 
+DEF_LABELS = ["r", "R", "foo bar", "Foo\tBar", "é", "a\\]b", "a\\\\", "x", "[", "*s*", "l\nm", " r ", ""]
+DEF_DESTS = ["/u", "<a b>", "http://x.y/?q=1&r", "javascript:x", "/w_(v)", "\\(p", "<>", "", "/é", "data:image/png;base64,q", "<a\nb>", "/u\\", "(q)"]
+DEF_TITLES = ["", "", " 't'", ' "T"', " (p)", "\n'multi\nline'", "\n  \"next\"", " 'a' junk", "\n'cand' junk", " \"unclosed", " 'x\\'y'", " \"a\\\nb\"",
+              "  ", " 't'  ", "\n\n't'", "'glued'", " (a(b)"]
+FIXED_R = ["[r]: /u 't'\n\n[r] ![r] [x][r]\n", "[a]: /1\n[a]: /2\n\n[a]\n", "> [q]: /in\n\n[q]\n", "- [i]: <x y>\n  'T'\n\n[i]\n", "[r]: /u\n'cand' junk\n\n[r]\n",
+           "[r]:\n/u\n\"t\"\n[r]\n", "para\n[r]: /u\n\n[r]\n", "[r]: javascript:x\n\n[r]\n", "[ r\n s ]: /u\n\n[r s]\n", "[r]: /u 't' x\n[r]\n", "[", "[r]:", "[r]: /u\n===\n[r]\n",
+           "[a\\]: /u\n\n[a\\]\n", "[r]: /u\n    't'\n\n[r]\n", "[r]: /u\n> q\n", "[r]: /u 't\n\nu'\n", "[]: /u\n\n[]\n", "[ ]: /u\n"]
+
+
+def with_defs(rng, src: str) -> str:
+    """reference definitions spliced into a document: at the start, between lines, inside containers; uses of their labels"""
+    ls = src.split("\n")
+    for _ in range(rng.randint(1, 3)):
+        lab = rng.choice(DEF_LABELS)
+        d = "[" + lab + "]:" + rng.choice([" ", "", "\n", "  ", "\t"]) + rng.choice(DEF_DESTS) + rng.choice(DEF_TITLES)
+        pre = rng.choice(["", "", "", "> ", "- ", "  ", "   ", "    ", "1. "])
+        cont = {"> ": "> ", "- ": "  ", "1. ": "   "}.get(pre, pre if rng.random() < 0.5 else "")
+        dl = d.split("\n")
+        block = [pre + dl[0]] + [cont + x for x in dl[1:]]
+        at = rng.randint(0, len(ls))
+        if rng.random() < 0.5:
+            block.append("")
+        ls[at:at] = block
+        if rng.random() < 0.7:
+            use = rng.choice(["[%s]", "![%s]", "[t][%s]", "[%s][]", "![i][%s] *e*"]) % lab.replace("\n", " ")
+            ls.append("")
+            ls.append(use)
+    return "\n".join(ls)
+
+
 def rand_full(rng) -> str:
     k = rng.random()
     base = rand_more(rng) if k < 0.3 else rand_l(rng) if k < 0.5 else rand_q(rng) if k < 0.65 else gens.struct_doc(rng, 2) if k < 0.85 \
@@ -38,7 +68,7 @@ def rand_full(rng) -> str:
     return s
 
 
-def tie_full(ctx: Ctx, drv: Driver, n: int) -> None:
+def tie_full(ctx: Ctx, drv: Driver, n: int, ref: bool = False) -> None:
     from markdown_it import MarkdownIt
     from markdown_it.common import normalize_url as nu
     from markdown_it.common.utils import normalizeReference
@@ -48,6 +78,7 @@ def tie_full(ctx: Ctx, drv: Driver, n: int) -> None:
 
     linkmod = importlib.import_module("markdown_it.rules_inline.link")
     imgmod = importlib.import_module("markdown_it.rules_inline.image")
+    refmod = importlib.import_module("markdown_it.rules_block.reference")
     rng = ctx.rng
 
     def reformat(url: str) -> str:
@@ -69,6 +100,10 @@ def tie_full(ctx: Ctx, drv: Driver, n: int) -> None:
     try:
         for it in range(n):
             src = FIXED[it] if it < len(FIXED) else rand_full(rng)
+            if ref:
+                src = FIXED_R[it] if it < len(FIXED_R) else with_defs(rng, src)
+            ref_on = ref and rng.random() < 0.9
+            idefs = ref and rng.random() < 0.3
             if "\x00" in src and rng.random() < 0.5:
                 src = src.replace("\x00", "")
             rs = rng.choice(INLINE_SETS)
@@ -79,8 +114,8 @@ def tie_full(ctx: Ctx, drv: Driver, n: int) -> None:
             tj = rng.random() < 0.85
             inl = rng.random() < 0.93
             store = rng.random() < 0.3
-            md = MarkdownIt("zero", {"maxNesting": mn, "html": html_on, "store_labels": store})
-            md.enable(["blockquote", "list"] + [MORE_NAMES[j] for j in range(6) if bits >> (5 - j) & 1])
+            md = MarkdownIt("zero", {"maxNesting": mn, "html": html_on, "store_labels": store, "inline_definitions": idefs})
+            md.enable(["blockquote", "list"] + [MORE_NAMES[j] for j in range(6) if bits >> (5 - j) & 1] + (["reference"] if ref_on else []))
             en = [INLINE_NAMES[c] for c in rs if c in INLINE_NAMES]
             if en:
                 md.enable(en)
@@ -116,23 +151,32 @@ def tie_full(ctx: Ctx, drv: Driver, n: int) -> None:
             md.normalizeLinkText = nt
             linkmod.normalizeReference = nr
             imgmod.normalizeReference = nr
+            refmod.normalizeReference = nr
+            seeded = dict(env.get("references", {}))
             try:
                 toks = md.parse(src, env)
                 e = "ok " + " ".join(enc_toks(toks))
+                if ref:
+                    added = [(k, v) for k, v in env.get("references", {}).items() if k not in seeded]
+                    e += " #refs " + (",".join(f"{enc(k)}={enc(v['href'])}={enc(v['title'])}" for k, v in added) or "~")
+                    e += " #dups " + (",".join(f"{enc(v['label'])}={enc(v['href'])}={enc(v['title'])}" for v in env.get("duplicate_refs", [])) or "~")
             except Exception as ex:  # noqa: BLE001
                 e = "e:" + type(ex).__name__
             ents = {m.group(1): lib_entities[m.group(1)] for m in name_re.finditer(src) if m.group(1) in lib_entities}
-            rh = {k: v["href"] for k, v in env.get("references", {}).items()}
-            rt = {k: v["title"] for k, v in env.get("references", {}).items() if v["title"]}
-            lines.append(f"fullparse {bits:06b}{1 if html_on else 0} {mn} {rs or '-'} {1 if fj else 0} {1 if inl else 0} {1 if tj else 0} {pairs(ents)} "
+            rh = {k: v["href"] for k, v in seeded.items()}
+            rt = {k: v["title"] for k, v in seeded.items() if v["title"]}
+            req = f"fullparser {bits:06b}{1 if html_on else 0}{1 if ref_on else 0}{1 if idefs else 0}" if ref else f"fullparse {bits:06b}{1 if html_on else 0}"
+            lines.append(f"{req} {mn} {rs or '-'} {1 if fj else 0} {1 if inl else 0} {1 if tj else 0} {pairs(ents)} "
                          f"{pairs(seen_norm)} {pairs(seen_text)} {1 if has_refs else 0} {1 if store else 0} {pairs(rh)} {pairs(rt)} {pairs(seen_ref)} {enc(src)}")
             exp.append(e)
             meta.append((src, bits, html_on, mn, rs, fj, inl, tj, has_refs, store, sorted(refs)))
     finally:
         linkmod.normalizeReference = orig_norm
         imgmod.normalizeReference = orig_norm
+        refmod.normalizeReference = orig_norm
     got = drv.batch(lines)
     kinds = {}
+    ndefs = sum(1 for e in exp if " #refs " in e and not e.split(" #refs ")[1].startswith("~"))
     bad = 0
     for e, g, m in zip(exp, got, meta):
         ctx.corr_compared += 1
@@ -142,8 +186,11 @@ def tie_full(ctx: Ctx, drv: Driver, n: int) -> None:
         if e.strip() != g.strip():
             bad += 1
             if bad <= 5:
-                ctx.mismatch("MarkdownIt.parse end to end (modelled sub-language): implementation and model differ",
+                ctx.mismatch("MarkdownIt.parse end to end (modelled sub-language" + (", with the reference rule" if ref else "") + "): implementation and model differ",
                              {"input": m[0], "block_enabled": ["blockquote", "list"] + [MORE_NAMES[j] for j in range(6) if m[1] >> (5 - j) & 1],
                               "html": m[2], "maxNesting": m[3], "inline_rules": m[4], "fragments_join": m[5], "inline": m[6], "text_join": m[7],
                               "has_refs": m[8], "store_labels": m[9], "refs": m[10], "impl": e[:700], "model": g[:700]})
-    ctx.cov["full_parse_tie"] = {"documents": len(lines), "documents_with": kinds}
+    if ref:
+        ctx.cov["full_parse_ref_tie"] = {"documents": len(lines), "documents_with": kinds, "documents_recording_definitions": ndefs}
+    else:
+        ctx.cov["full_parse_tie"] = {"documents": len(lines), "documents_with": kinds}
